@@ -48,6 +48,7 @@ func classify(err error) string {
 	add("simclosed", errors.Is(err, ErrSimClosed))
 	add("simwrite", errors.Is(err, ErrSimWrite))
 	add("simwriteeof", errors.Is(err, ErrSimWriteEOF))
+	add("simlook", errors.Is(err, ErrSimLookalike))
 	add("simbroken", errors.Is(err, ErrSimBroken))
 	add("simdial", errors.Is(err, ErrSimDial))
 	var rte *mqtt.RequestTimeoutError
